@@ -155,6 +155,8 @@ def c11(tier, seed):
         models.append({"module": "ConcQueueMC", "tag": "waitfor-3threads", "cfg": mc_cfg([1, 2, 3], "WF3"), "heap": "16g"})
     stress_sc = [{"scenario": s} for s in ["nq,pa|eq,eq", "nq,nq,po,po|eq,eq", "nq|pa|eq", "nq,tk|eq"]]
     return {"models": models, "runner": RUNNER_CQ, "trace_module": "TraceCQ", "scenarios": scen, "corpus": [CORPUS_EO], "extra_runners": [RUNNER_HQ],
+            "model_defects": [{"module": "ConcQueueMC", "cfg": mc_cfg([1, 2], "SOverlap", defects=["guard_restore"]), "defect": "guard_restore"},
+                              {"module": "ConcQueueMC", "cfg": mc_cfg([1, 2], "SLastOnly", defects=["guard_if_last"]), "defect": "guard_if_last"}],
             "stress_runners": STRESS_CQ, "stress_scenarios": stress_sc,
             "rule": "ConcQueue.tla with emptyQueue as two reads and the history variable 'enqueues finished before the call began'; observer scenarios "
                     "(emptyQueue / waitFor time-out against enqueue + process/processOne/takeEvent/clearEvents) explored on the real EventQueue with "
